@@ -13,7 +13,7 @@ PKGS=()
 while IFS= read -r p; do
   [ -z "$p" ] && continue
   case "$p" in \#*) continue;; esac
-  PKGS+=("/repo/$p")
+  case "$p" in /*) PKGS+=("$p");; @harness/*) PKGS+=("$ROOT/harness/${p#@harness/}");; *) PKGS+=("/repo/$p");; esac
 done < "$ROOT/instrumented-packages.txt"
 SRC=()
 [ -n "${VERIF_SRC_OVERLAY:-}" ] && SRC=(-src-overlay "$VERIF_SRC_OVERLAY")
